@@ -42,8 +42,8 @@ def AttrBack (dec orig : Attrs) : Prop :=
   ∀ k, isDiffKey k = false →
     attrGet dec k = attrGet orig k ∨ (attrGet dec k = some UNKNOWN ∧ (attrGet orig k).isSome = true)
 
-/-- **The reject-all projection of the output with the attributes, for a script of the differ.** -/
-theorem differ_script_output_attrs (bis : Dmp.Bisect) (qn : QName) (cfg : Cfg) (L R : Tree) (M : List (Nat × Nat))
+/-- everything the theorems about the output of the formatter on a differ script rest on -/
+theorem differ_script_core (bis : Dmp.Bisect) (qn : QName) (cfg : Cfg) (L R : Tree) (M : List (Nat × Nat))
     (fresh : Nat) (script : List Action) (final : Tree) (ft : List Str) (w : Bool)
     (hclean : CleanT L) (hshort : AllP (ShortP w) L) (htag : AllP TagOK L) (hL : (ids L).Nodup) (hRn : (ids R).Nodup)
     (hdisj : ∀ i ∈ ids L, i ∉ ids R)
@@ -53,10 +53,10 @@ theorem differ_script_output_attrs (bis : Dmp.Bisect) (qn : QName) (cfg : Cfg) (
     (hLa : AllP (AttrFit.PairsP nameOKb valOKb) L)
     (hRa : ∀ x ∈ bfs R, AttrFit.PairsOK nameOKb valOKb x.payload.attrs)
     (h : scriptGen qn cfg L R M fresh = .ok (script, final)) :
-    ∃ s' out after, runFmtE w bis qn (fstate0 L fresh ft [] w) script = .ok s' ∧
+    ∃ s' σ out after, runFmtE w bis qn (fstate0 L fresh ft [] w) script = .ok s' ∧
       (∃ N, ∀ f, N ≤ f → undoElement f s'.ph diffElemList s'.tree = .ok (out, after)) ∧
-      bare (rejFTA out) = setTailT none (bare L) ∧
-      ∀ i p, payOf (rejFTA out) i = some p → ∃ q, payOf L i = some q ∧ AttrBack p.attrs q.attrs := by
+      FinT s'.tree out after ∧ AllP TagOK s'.tree ∧ (ids s'.tree).Nodup ∧ InjOn σ (ids final) ∧
+      acc (cln accS) s'.tree = mapId σ final ∧ rej s'.tree = bare L ∧ KAll L s'.tree := by
   obtain ⟨s0, hrun0, K⟩ := differ_script_attrs bis qn cfg L R M fresh script final ft w hclean hshort hL hRn hdisj hfL
     hfR hM (fun x hx => ⟨(hR x hx).1, (hR x hx).2.1, (hR x hx).2.2.1⟩) hLa hRa h
   have hR' : ∀ x ∈ bfs R, (keys x.payload.attrs).Nodup ∧ XClean (fun k => isDiffKey k = false) x :=
@@ -101,14 +101,33 @@ theorem differ_script_output_attrs (bis : Dmp.Bisect) (qn : QName) (cfg : Cfg) (
   rw [h1] at hrun0
   injection hrun0 with hrun0
   subst hrun0
-  have hrA := rejFTA_fin s'.tree out after hfin tg
   have hrejL : rej s'.tree = bare L := by rw [h4]; exact rej_clean L hclean
+  exact ⟨s', σ, out, after, h1, hu, hfin, tg, hfok.tok.nodup, r.inj, r.eq, hrejL, K⟩
+
+/-- **The reject-all projection of the output with the attributes, for a script of the differ.** -/
+theorem differ_script_output_attrs (bis : Dmp.Bisect) (qn : QName) (cfg : Cfg) (L R : Tree) (M : List (Nat × Nat))
+    (fresh : Nat) (script : List Action) (final : Tree) (ft : List Str) (w : Bool)
+    (hclean : CleanT L) (hshort : AllP (ShortP w) L) (htag : AllP TagOK L) (hL : (ids L).Nodup) (hRn : (ids R).Nodup)
+    (hdisj : ∀ i ∈ ids L, i ∉ ids R)
+    (hfL : ∀ i ∈ ids L, i < fresh) (hfR : ∀ i ∈ ids R, i < fresh) (hM : GoodMatching L R M)
+    (hR : ∀ x ∈ bfs R, (keys x.payload.attrs).Nodup ∧ XClean (fun k => isDiffKey k = false) x ∧ ShortP w x.payload ∧
+      TagOK x.payload)
+    (hLa : AllP (AttrFit.PairsP nameOKb valOKb) L)
+    (hRa : ∀ x ∈ bfs R, AttrFit.PairsOK nameOKb valOKb x.payload.attrs)
+    (h : scriptGen qn cfg L R M fresh = .ok (script, final)) :
+    ∃ s' out after, runFmtE w bis qn (fstate0 L fresh ft [] w) script = .ok s' ∧
+      (∃ N, ∀ f, N ≤ f → undoElement f s'.ph diffElemList s'.tree = .ok (out, after)) ∧
+      bare (rejFTA out) = setTailT none (bare L) ∧
+      ∀ i p, payOf (rejFTA out) i = some p → ∃ q, payOf L i = some q ∧ AttrBack p.attrs q.attrs := by
+  obtain ⟨s', σ, out, after, h1, hu, hfin, tg, hnd, _, _, hrejL, K⟩ := differ_script_core bis qn cfg L R M fresh script
+    final ft w hclean hshort htag hL hRn hdisj hfL hfR hM hR hLa hRa h
+  have hrA := rejFTA_fin s'.tree out after hfin tg
   refine ⟨s', out, after, h1, hu, ?_, ?_⟩
   · rw [hrA, bare_setTailT, bare_rejA, hrejL]
   · intro i p hp
     rw [hrA] at hp
     obtain ⟨p1, hp1, e1⟩ := payOf_setTailT_attrs none (rejA s'.tree) i p hp
-    obtain ⟨p2, hp2, e2⟩ := payOf_rejA s'.tree hfok.tok.nodup i p1 hp1
+    obtain ⟨p2, hp2, e2⟩ := payOf_rejA s'.tree hnd i p1 hp1
     -- `i` is a node of the left document
     have hi : i ∈ ids L := by
       have h5 : i ∈ ids (rejA s'.tree) := by
